@@ -58,7 +58,7 @@ func guardOf(prop string) func(func() Result) Result {
 
 // HangTimeout bounds the execution of a single case. Sequential cases finish
 // in milliseconds; the bound is generous so that machine load cannot trip it.
-var HangTimeout = 120 * time.Second
+var HangTimeout = 90 * time.Second
 
 // EnumTimeout bounds cases that enumerate crash images / fault plans / header
 // damage after executing their history (minutes of legitimate work in the
@@ -111,5 +111,16 @@ func noteCase(prop, kind string, prog []byte) {
 	rp := harness.Replay{Property: prop, Kind: kind, Program: json.RawMessage(prog)}
 	if b, err := json.Marshal(&rp); err == nil {
 		_ = os.WriteFile(curCasePath, b, 0o644)
+	}
+}
+
+// abortOnHang ends the test process right after a hang has been recorded: the
+// abandoned goroutine may spin forever, and shrinking a hang costs a timeout
+// per attempt.
+func abortOnHang(rec *harness.Recorder, v *harness.Violation) {
+	if v != nil && v.Clause == "hang" {
+		rec.Flush(false)
+		fmt.Fprintln(os.Stderr, "hang recorded, ending the process:", v.Msg)
+		os.Exit(1)
 	}
 }
